@@ -215,7 +215,11 @@ func (e *Engine) evalEmitOnce(runs []emitRun) []emitObl {
 				ok := true
 				for _, p := range r.paths {
 					lt := literalText(p.text)
-					if strings.Count(lt, "A(A)") != 1 || strings.Count(lt, "B(B)") != 1 {
+					wantB := 1
+					if r.cell.Single {
+						wantB = 0
+					}
+					if strings.Count(lt, "A(A)") != 1 || strings.Count(lt, "B(B)") != wantB {
 						ok = false
 					}
 				}
@@ -370,6 +374,90 @@ func (e *Engine) evalEmitOnce(runs []emitRun) []emitObl {
 				detail = "back-patch line differs between the byte orders"
 			}
 			add(base+":backpatch-le", []string{"C04"}, ok, detail)
+			// the length is measured over the target's own encoding: some line that mentions the length
+			// field also mentions the target field (its start / end marks or its length variable)
+			okT := true
+			for _, pt := range r.paths {
+				found := false
+				for _, l := range strings.Split(flatText(pt.text), "\n") {
+					if strings.Contains(l, "in.l.Name") && strings.Contains(l, "in.f.Name") {
+						found = true
+					}
+				}
+				if !found {
+					okT = false
+				}
+			}
+			add(base+":backpatch-target", []string{"C04"}, okT, "no line of the emitted text relates the length field to the target field: the length is not measured over the target's own encoding")
+		}
+	}
+	// cross-cell predicates
+	byID := map[string]*emitRun{}
+	for i := range runs {
+		r := &runs[i]
+		byID[r.entry.Lang+":"+r.entry.Dir+":"+r.cell.ID] = r
+	}
+	count := func(r *emitRun, what string) (int, int) { // min and max number of mentions over the paths
+		lo, hi := -1, 0
+		for _, p := range r.paths {
+			n := strings.Count(flatText(p.text), what)
+			if lo < 0 || n < lo {
+				lo = n
+			}
+			if n > hi {
+				hi = n
+			}
+		}
+		return lo, hi
+	}
+	for i := range runs {
+		r := &runs[i]
+		if r.err != "" || len(r.paths) == 0 {
+			continue
+		}
+		base := fmt.Sprintf("EMIT:%s:%s:%s", r.entry.Lang, r.entry.Dir, r.cell.ID)
+		if r.cell.Single && (r.entry.Dir == "enc" || r.entry.Dir == "dec") {
+			// a table whose alternatives all name one packet is dispatched like any other: the key field
+			// is mentioned as often as for a table with two target packets
+			if ref := byID[r.entry.Lang+":"+r.entry.Dir+":match"]; ref != nil && ref.err == "" && len(ref.paths) > 0 {
+				lo, hi := count(r, "in.k.Name")
+				rlo, rhi := count(ref, "in.k.Name")
+				add(base+":key-uses", []string{"C05"}, lo == rlo && hi == rhi, fmt.Sprintf("the key field is mentioned %d..%d times for a single-target table, %d..%d times for a two-target table", lo, hi, rlo, rhi))
+			}
+		}
+		if r.cell.Alias != "" && r.entry.Dir != "dispatch" {
+			// the long spelling of the type yields the same text as the short one
+			c := r.cell
+			c.Alias = ""
+			refID := c.Kind + ":" + c.Typ
+			if c.Repeat {
+				refID += ":repeat"
+			}
+			props := []string{"C08"}
+			switch r.cell.Kind {
+			case "checksum":
+				props = append(props, "C06")
+			case "length":
+				props = append(props, "C04")
+			}
+			switch r.entry.Dir {
+			case "enc":
+				props = append(props, "C01")
+			case "dec":
+				props = append(props, "C02")
+			}
+			if ref := byID[r.entry.Lang+":"+r.entry.Dir+":"+refID]; ref != nil && ref.err == "" {
+				var a, b []string
+				for _, p := range r.paths {
+					a = append(a, flatText(p.text))
+				}
+				for _, p := range ref.paths {
+					b = append(b, flatText(p.text))
+				}
+				sort.Strings(a)
+				sort.Strings(b)
+				add(base+":alias", props, strings.Join(a, "\x00") == strings.Join(b, "\x00"), "the emitted text differs between the spellings "+r.cell.Alias+" and "+r.cell.Typ+" of the field's type")
+			}
 		}
 	}
 	// encode / decode symmetry
